@@ -10,6 +10,7 @@ REPLAYERS = {
     "sem_replay": ("Extract.v", "_extract", ["Model/MuReplay.vo", "Model/SemReplay.vo", "Model/OnceReplay.vo"]),
     "once_replay": ("Extract.v", "_extract", ["Model/MuReplay.vo", "Model/SemReplay.vo", "Model/OnceReplay.vo"]),
     "counter_replay": ("Extract_Counter.v", "_extract_counter", ["Model/CounterReplay.vo"]),
+    "waitn_replay": ("Extract_WaitN.v", "_extract_waitn", ["Model/WaitNReplay.vo"]),
 }
 OTHER_MAINS = set()
 
